@@ -12,6 +12,49 @@ def is_local(n, name):
     return isinstance(n, dict) and n.get("k") == "local" and n.get("n") == name
 
 
+def def_brand_misuse(body):
+    """Lifetimes that are the definition-site half of a linked pair (`link_lifetimes(..).lifetimes_def_only()` / `lifetimes_all()` yield (use-site, def-site)) index the
+    definition's environment.  -> [(name, line)] of such lifetimes handed to `fmt_lifetime` of an environment that is not the link's `def_env()` / a StructBorrowInfo's `env`."""
+    bad = []
+    def_ids = set()
+
+    def chain_has_pairs(e):
+        e = C.strip(e)
+        while isinstance(e, dict) and e.get("k") == "mcall":
+            if e.get("m") in ("lifetimes_def_only", "lifetimes_all"):
+                return True
+            e = C.strip(e["recv"])
+        return False
+    for n in C.walk(body):
+        pats = []
+        if n.get("k") == "for" and chain_has_pairs(n.get("iter")):
+            pats.append(n.get("pat"))
+        if n.get("k") == "mcall" and chain_has_pairs(n.get("recv")):
+            for a in n.get("a", []):
+                a = C.strip(a)
+                if isinstance(a, dict) and a.get("k") == "closure":
+                    pats += a.get("params", [])
+        for p in pats:
+            if isinstance(p, dict) and p.get("k") == "tuple" and len(p.get("sub") or []) == 2:
+                def_ids |= C.pat_bind_ids(p["sub"][1])
+    if not def_ids:
+        return bad
+    for x in C.walk(body):
+        if x.get("k") == "mcall" and x.get("m") == "fmt_lifetime" and x.get("a"):
+            a = C.strip(x["a"][0])
+            if a.get("k") == "local" and a.get("id") in def_ids:
+                rc = C.strip(x["recv"])
+                is_def_env = (rc.get("k") == "mcall" and rc.get("m") == "def_env") or (rc.get("k") == "field" and rc.get("n") == "env" and "StructBorrowInfo" in (rc.get("bty") or ""))
+                if not is_def_env:
+                    bad.append((a.get("n"), x.get("ln")))
+    return bad
+
+
+_BRAND_SAMPLE = {"k": "block", "s": [], "e": {"k": "mcall", "m": "filter_map", "recv": {"k": "mcall", "m": "lifetimes_def_only", "recv": {"k": "mcall", "m": "link_lifetimes", "recv": {"k": "local", "n": "strct", "id": 1}, "a": []}, "a": []},
+                 "a": [{"k": "closure", "params": [{"k": "tuple", "sub": [{"k": "bind", "n": "use_lt", "id": 2}, {"k": "bind", "n": "def_lt", "id": 3}]}],
+                        "body": {"k": "mcall", "m": "fmt_lifetime", "recv": {"k": "local", "n": "lifetime_env", "id": 4}, "a": [{"k": "local", "n": "def_lt", "id": 3}], "ln": 1}}]}}
+
+
 def run(ck, facts):
     core, tool = facts.core, facts.tool
     adts = facts.all_adts()
@@ -427,6 +470,15 @@ def run(ck, facts):
                               "a use-site lifetime is looked up in the struct's definition environment", C.loc(f, x.get("ln")))
     if n6 < 4:
         ck.bad("R6", "floor", "only %d branded fmt_lifetime calls found (4 counted: dart and js, def and use)" % n6)
+    # definition-site halves of linked lifetime pairs are never formatted with a user-side environment (no such use exists today: the matcher is kept alive by a built-in sample)
+    ck.expect(def_brand_misuse(_BRAND_SAMPLE) == [("def_lt", 1)], "R6", "linked-pair/matcher-selftest", "sample flagged", "the def-brand matcher no longer recognises its built-in sample")
+    for f in tool.fn_list + core.fn_list:
+        if "hir" not in f or f.get("exp"):
+            continue
+        for nm_, ln_ in def_brand_misuse(C.fn_body(f)):
+            ck.bad("R6", "%s/def-lifetime-in-user-env" % C.norm_path(f["path"]).split("::")[-1],
+                   "`%s` is the definition-site half of a linked lifetime pair but is formatted with a user-side environment: wrong edge names, or `Found out of range lifetime` when the "
+                   "definition has more lifetimes than the user" % nm_, C.loc(f, ln_))
 
     # ---------------- R2 (cont.) entries of a borrowed_struct_lifetime_map are recorded under conditions on the lifetimes at hand only: a guard that
     # consults other state (a `seen` set, a counter) drops the second slot of `Inner<'a, 'a>`
